@@ -14,9 +14,10 @@ Fixpoint prefixes_roots (n : nat) (l : list bytes) (k : N) : list bytes :=
 
 Definition lbytes_eqb := list_eqb bytes_eqb.
 
-(* the consistency verifier the Go code is compared with.  When fixes/C08-consistency-length.diff is
-   applied to /repo, replace `verify_consistency` by `verify_consistency_fixed` here (nothing else
-   changes in the tie); theorems C08_consistency_fixed_* are about that function. *)
+(* the consistency verifier the Go code is compared with: `verify_consistency_fixed`
+   (Merkle/VerifyFixed.v) IS the model of the current ahtree.VerifyConsistency (since /repo 05f2785:
+   length test against consistencyProofLen).  `verify_consistency` (Merkle/Verify.v) is the PRE-FIX
+   function, kept for the refutation witnesses and the partial theorems about it. *)
 Definition vcons := verify_consistency_fixed Hs.
 
 (* index into the digest log recorded by the harness (N counter: an out-of-range index stays cheap) *)
